@@ -230,6 +230,9 @@ func runC13(c *Ctx, r *Report) {
 		"two goroutines scribble on one scratch matrix")
 	oneSlabPerWorker(c, r)
 
+	c13r6(c, r)
+	c06r1(c, r) // items never change after they have been read
+
 	if c.thorough() {
 		// ---------------- R5 ----------------
 		r.rule("C13-R5", "B (writer census)", "P2",
